@@ -85,6 +85,19 @@ inductive EndObs where
   | other
 deriving DecidableEq, Repr
 
+/-- the model's `end` observation: how the pending call (the probe) ends in the model -/
+def endObsOf (sa : Bool) : Ended → EndObs
+  | .replied => .result true
+  | .synthetic => .synthetic
+  | .failed .decode => .decode
+  | .failed .malformed => .malformed
+  | .failed .exceeded => .exceeded
+  | .failed .connect => .reconnect
+  | .failed (.rejected c) => .st (some c)
+  | .failed .sessionGone => .sessionMissing
+  | .failed (.status c) => .st (some c)
+  | .streaming => if sa then .ok else .hang
+
 /-- a record of a case after its `scn` record -/
 inductive Rec (L : Type) where
   | x (r : XRec)
